@@ -14,6 +14,7 @@ Modes:
            compression forced on).
 """
 
+import os
 import random
 import zlib
 
@@ -222,7 +223,7 @@ class PairWorld(WsWorld):
         cfac.setProtocolOptions(perMessageCompressionOffers=offers, perMessageCompressionAccept=c_accept,
                                 autoFragmentSize=cfg["fragC"], openHandshakeTimeout=0)
         self.cfac, self.sfac = cfac, sfac
-        if kind == "deflate" and ch.flag("earlier-connection-with-default-parameters", 0.2):
+        if kind == "deflate" and ch.flag("earlier-connection-with-default-parameters", 0.2) and not os.environ.get("VERIF_NO_DECOY"):
             # an earlier connection of this process - other factories, the default offer (window 2^15, default memory
             # level), compressed traffic both ways: nothing it leaves behind may reach the judged connection's codecs
             dsfac = aw.WebSocketServerFactory("ws://localhost:9000", **kw)
